@@ -102,7 +102,7 @@ def hostReOf (kind : String) (lit : Bytes) : Option (Bytes → Bool) :=
   else if kind = "hp" then some (reHostPort lit)
   else none
 
-def scopeOf (s : String) : Option Scope :=
+def atomOf (s : String) : Option Scope :=
   if s = "G" then some .global else
   match splitC ':' s with
   | [t, h] =>
@@ -114,6 +114,7 @@ def scopeOf (s : String) : Option Scope :=
     (match t.toList, ofHex h with
      | ['R', n], some b => (reOf k b).map fun m => Scope.urlRe (n == '1') m
      | ['Q', n], some b => (hostReOf k b).map fun m => Scope.hostRe (n == '1') m
+     | ['J', n], some b => (reOf k b).map fun m => Scope.ipRe (n == '1') m
      | _, _ => none)
   | [t, fam, a, bits] =>
     (match t.toList, ofHex a, bits.toNat? with
@@ -124,12 +125,37 @@ def scopeOf (s : String) : Option Scope :=
      | _, _, _ => none)
   | _ => none
 
-/-- scope|allow|deny|auth|exclude|forwarder|headers -/
+/-- a block's effective condition: atoms joined by '&' (enclosing blocks first), '!' = an earlier
+    branch of the else-chain that must not hold -/
+def scopeOf (s : String) : Option Scope :=
+  let one (a : String) : Option Scope :=
+    if a.startsWith "!" then (atomOf (a.drop 1).toString).map Scope.non else atomOf a
+  match (splitC '&' s).mapM one with
+  | some (x :: xs) => some (xs.foldl Scope.both x)
+  | _ => none
+
+/-- "~" | "." | rule,rule  with rule = prefix | prefix@user+user -/
+def authList (s : String) : Option (Option (List AuthRule)) :=
+  if s = "~" then some none
+  else if s = "." then some (some [])
+  else ((splitC ',' s).mapM fun r =>
+    match splitC '@' r with
+    | [p] => (ofHex p).map fun p => ({ pfx := p } : AuthRule)
+    | [p, us] =>
+      (match ofHex p, hexList (splitC '+' us) with
+       | some p, some us => some ({ pfx := p, users := some us } : AuthRule)
+       | _, _ => none)
+    | _ => none).map some
+
+def optBool (s : String) : Option (Option Bool) :=
+  if s = "~" then some none else if s = "1" then some (some true) else if s = "0" then some (some false) else none
+
+/-- scope|allow|deny|auth|exclude|forwarder|headers|disable-pathinfo -/
 def blockOf (s : String) : Option Block :=
   match splitC '|' s with
-  | [sc, al, dn, au, ex, fw, fh] =>
-    match scopeOf sc, optList al, optList dn, optList au, optList ex, optList fh with
-    | some sc, some al, some dn, some au, some ex, some fh =>
+  | [sc, al, dn, au, ex, fw, fh, np] =>
+    match scopeOf sc, optList al, optList dn, authList au, optList ex, optList fh, optBool np with
+    | some sc, some al, some dn, some au, some ex, some fh, some np =>
       let fw? : Option (Option Forwarder) :=
         if fw = "~" then some none
         else match fwdEntries fw with
@@ -137,11 +163,20 @@ def blockOf (s : String) : Option Block :=
           | none => none
       fw?.map fun fw =>
         { scope := sc, allow := al, deny := dn, auth := au, exclude := ex, forwarder := fw,
-          fwdHeaders := fh.map fun l => l.map fun n => n.map toLower }
-    | _, _, _, _, _, _ => none
+          fwdHeaders := fh.map fun l => l.map fun n => n.map toLower, noPathinfo := np }
+    | _, _, _, _, _, _, _ => none
   | _ => none
 
-def goodCred : Bytes := ofString "Basic YWxpY2U6d29uZGVybGFuZA=="
+/-- the users of the harness's user file, by the Authorization value that verifies -/
+def knownCreds : List (Bytes × Bytes) :=
+  [(ofString "Basic YWxpY2U6d29uZGVybGFuZA==", ofString "alice"),
+   (ofString "Basic YWRtaW46c2VzYW1l", ofString "admin"),
+   (ofString "Basic Ym9iOmJ1aWxkZXI=", ofString "bob")]
+
+def userOf (hs : List (Bytes × Bytes)) : Option Bytes :=
+  match hs.find? (fun h => h.1 = ofString "authorization") with
+  | some h => (knownCreds.find? (fun c => c.1 = h.2)).map (·.2)
+  | none => none
 
 def respStr (r : Resp) (parsed : Bool) : String :=
   toString r.status ++ "," ++ (if parsed then toHex r.uri else "-") ++ "," ++
@@ -199,8 +234,7 @@ def reqOf (s : Server) (tok : String) : Option String :=
       | .ok r _ =>
         if r.method ≠ ofString "GET" then none else
         let q : Req := { target := r.target, host := r.host.getD [], peer := peer, peerAddr := pa,
-                         hdrs := r.headers,
-                         cred := r.headers.any fun h => h.1 = ofString "authorization" && h.2 = goodCred }
+                         hdrs := r.headers, user := userOf r.headers }
         some (respStr (serve false gaiNumeric s q) true)
       | .err e => some (respStr { status := e, uri := [], pathinfo := [], addr := peer, file := none } false)
       | _ => none
